@@ -406,3 +406,154 @@ func paramIdxByName(fn *ssa.Function, name string, fallback int) int {
 	}
 	return fallback
 }
+
+// resultVar: one result of a function as the rules see it — either a cell (named result kept in memory because the
+// function defers) or a local that a loop carries from one iteration to the next and that is returned afterwards.
+type resultVar struct {
+	cell    ssa.Value
+	carried *ssa.Phi
+}
+
+// resultVarOf resolves result idx (of n) of fn with respect to loop l.
+func resultVarOf(fn *ssa.Function, idx, n int, l *Loop) (resultVar, bool) {
+	var cands []ssa.Value
+	for _, b := range fn.Blocks {
+		r, ok := lastInstr(b).(*ssa.Return)
+		if !ok || IsRecoverBlock(b) || len(r.Results) != n {
+			continue
+		}
+		v := r.Results[idx]
+		if u, ok := v.(*ssa.UnOp); ok && u.Op == token.MUL {
+			if al, ok := u.X.(*ssa.Alloc); ok {
+				inLoop := false
+				for _, ref := range *al.Referrers() {
+					if st, ok := ref.(*ssa.Store); ok && st.Addr == ssa.Value(al) {
+						if l.Blocks[st.Block()] {
+							inLoop = true
+						}
+						cands = append(cands, st.Val)
+					}
+				}
+				if inLoop {
+					return resultVar{cell: al}, true
+				}
+				continue
+			}
+		}
+		cands = append(cands, v)
+	}
+	var find func(v ssa.Value, d int) *ssa.Phi
+	find = func(v ssa.Value, d int) *ssa.Phi {
+		ph, ok := v.(*ssa.Phi)
+		if !ok || d > 3 {
+			return nil
+		}
+		if ph.Block() == l.Head {
+			return ph
+		}
+		for _, e := range ph.Edges {
+			if r := find(e, d+1); r != nil {
+				return r
+			}
+		}
+		return nil
+	}
+	for _, v := range cands {
+		if ph := find(v, 0); ph != nil {
+			return resultVar{carried: ph}, true
+		}
+	}
+	return resultVar{}, false
+}
+
+// assigned: over the paths of sub (a part of one iteration of the loop), is the variable given a value satisfying
+// isSet on every path / on some path?  For a cell: stores.  For a carried local: the value each path leaves in the
+// loop-head phi, resolved backwards through the merges that lie on paths of sub.
+func (rv resultVar) assigned(sub *Region, isSet func(ssa.Value) bool) (always, sometimes bool) {
+	if rv.cell != nil {
+		ev := func(it Item) bool {
+			st, ok := it.In.(*ssa.Store)
+			return ok && st.Addr == rv.cell && isSet(st.Val)
+		}
+		esc, _ := sub.Escape(ev)
+		it, _ := sub.Reach(ev, nil)
+		return !esc, !it.IsZero()
+	}
+	head := rv.carried.Block()
+	type edge struct{ from, to *ssa.BasicBlock }
+	edges := map[edge]bool{}
+	seen := map[*ssa.BasicBlock]bool{}
+	var stack []*ssa.BasicBlock
+	for _, s := range sub.Starts {
+		stack = append(stack, s.B)
+	}
+	for len(stack) > 0 {
+		b := stack[len(stack)-1]
+		stack = stack[:len(stack)-1]
+		if seen[b] {
+			continue
+		}
+		seen[b] = true
+		dead := false
+		for _, in := range b.Instrs {
+			if isDeadEnd(in) {
+				dead = true
+			}
+		}
+		if dead {
+			continue
+		}
+		for k, succ := range b.Succs {
+			if !feasible(b, k, nil) || sub.Cut != nil && sub.Cut(b, succ) {
+				continue
+			}
+			if succ != head && sub.Allowed != nil && !sub.Allowed[succ] {
+				continue
+			}
+			edges[edge{b, succ}] = true
+			if succ != head {
+				stack = append(stack, succ)
+			}
+		}
+	}
+	var vals []ssa.Value
+	visiting := map[*ssa.Phi]bool{}
+	var resolve func(v ssa.Value)
+	resolve = func(v ssa.Value) {
+		ph, ok := v.(*ssa.Phi)
+		if ok && visiting[ph] {
+			return // around an inner loop: the value is one of those already being collected
+		}
+		if !ok || ph == rv.carried {
+			vals = append(vals, v)
+			return
+		}
+		m := ph.Block()
+		any := false
+		visiting[ph] = true
+		for i, pred := range m.Preds {
+			if edges[edge{pred, m}] {
+				any = true
+				resolve(ph.Edges[i])
+			}
+		}
+		visiting[ph] = false
+		if !any {
+			vals = append(vals, v) // merged before the paths of sub start: the old value
+		}
+	}
+	for i, pred := range head.Preds {
+		if edges[edge{pred, head}] {
+			resolve(rv.carried.Edges[i])
+		}
+	}
+	always = len(vals) > 0
+	for _, v := range vals {
+		if isSet(v) {
+			sometimes = true
+		} else {
+			always = false
+		}
+	}
+	return always, sometimes
+}
